@@ -954,7 +954,10 @@ class G:
             return ["for_update", r.random() < 0.3, r.random() < 0.3, r.choice([[], ["a"], ["a", "b", "a"]])]
         if k == "with":
             self.nsub += 1
-            return ["with", r.choice(WNAMES), "%d" % self.nsub]
+            name = r.choice(WNAMES)
+            if r.random() < 0.15:       # a name that can collide with do_join's automatic alias <table><k>
+                name = r.choice(["a", "b", "c"]) + r.choice(["2", "2", "3"])
+            return ["with", name, "%d" % self.nsub]
         if k in ("force_index", "use_index"):
             return [k, [r.choice(["i1", "i2", "i3"]) for _ in range(r.choice([1, 1, 2]))]]
         if k == "set":
@@ -1051,7 +1054,11 @@ def corpus():
     a, b, v = ["T", "a", None], ["T", "b", None], ["T", "v", None]
     sel = ["select", [["s", "x"]]]
     cs = [
-        # known finding: join criterion names a WITH query; valid only after with_
+        # known finding: the automatic alias a<k> of a same-named join skips the names of the WITH queries present
+        # at the time of the call: WITH a2 first -> JOIN "a" "a3"; join first -> JOIN "a" "a2"
+        {"cls": "Query", "prefix": [["from", a]],
+         "calls": [["with", "a2", "1"], ["join", a, "inner", ["on", ["cmp", "eq", ["x", a], ["y", a]], None]], sel]},
+        # repaired finding (160d589): a join criterion may name a WITH query attached later (regression witness)
         {"cls": "Query", "prefix": [["from", a]],
          "calls": [["with", "w", "1"], ["join", v, "inner", ["on", ["cmp", "eq", ["x", ["W", "w"]], ["x", v]], None]], sel]},
         # call-time flags: where on a table joined later / before
@@ -1245,7 +1252,10 @@ def extract():
     # the dialect builders must not override get_sql's assembly except by wrapping super().get_sql
     for cls in ("MySQLQueryBuilder", "VerticaQueryBuilder", "OracleQueryBuilder", "PostgreSQLQueryBuilder",
                 "MSSQLQueryBuilder"):
-        fn = _method(dt, cls, "get_sql")
+        try:
+            fn = _method(dt, cls, "get_sql")
+        except ValueError:
+            continue            # the class inherits get_sql
         if "super(" not in ast.unparse(fn):
             raise ValueError("%s.get_sql does not call super().get_sql" % cls)
     v = ["(* generated by harness/props/C08.py:extract() from pypika/queries.py and pypika/dialects.py -- do not edit *)",
